@@ -20,12 +20,12 @@ def run(ctx):
             ctx.broken.append((f"translator {tr}: source no longer has the translatable form", (r.stdout + r.stderr)[-2000:]))
         else:
             ctx.cov.setdefault("translators", {})[tr] = r.stdout.strip()
-    ctx.prove()
+    ctx.prove(extra_modules=["GMGProofs.Props.C19s"])
     h = ctx.build_harness("h_inputfn")
     n = "40" if ctx.tier == "quick" else "2000"
     ctx.pipe([h, "points", n], "inputfn", label="input-functions")
     ctx.pipe([h, "culham", "400" if ctx.tier == "quick" else "5000"], "inputfn", label="culham-jacobian")
     ctx.assumptions += ["the (r, theta) form of -div(alpha grad u) + beta u is the classical change of variables of the Cartesian operator; that "
-                        "equivalence is not formalised", "the 64+ generated source-term files are tied POINTWISE to the derived source term, not symbolically",
+                        "equivalence is not formalised", "the Shafranov / Czarny source-term files (44) are tied POINTWISE to the derived source term, not symbolically; the 21 Circular-geometry problems are theorems (C19s), 6 of them up to the rounding of the decimal literals in the shipped formulas",
                         "Culham: radial profiles are tabulated ODE solutions; only the theta-consistency of mapping and Jacobian is exact, the r part is measured",
                         "defect F8 (Culham cos 2theta) repaired by a fix: commit; F9 (three Poisson x Czarny source terms) is an open known finding"]
